@@ -282,7 +282,7 @@ def st_case(draw):
         given['n_frac'] = max(f_star + draw(st.integers(-2, 2)), 0)
         if which == 'n_frac' and draw(st.integers(0, 3)) == 0:
             # many more fraction bits than the values need, often right up to the 64-bit limit of the word
-            given['n_frac'] = draw(st.sampled_from([16, 24, 32, max(64 - (1 if sg else 0) - n_int_needed, f_star), max(63 - (1 if sg else 0) - n_int_needed, f_star)]))
+            given['n_frac'] = draw(st.sampled_from([16, 24, 32, max(64 - (1 if sg else 0) - n_int_needed, f_star), max(63 - (1 if sg else 0) - n_int_needed, f_star), -1, -2, -4]))
     if 'n_int' in which:
         given['n_int'] = max(n_int_needed + draw(st.integers(-1, 2)), 0)
         if given['n_word'] is not None:
